@@ -68,6 +68,12 @@ class GeomExpression(tuple):
             return GeomExpression((':', self[1].inverse(), self[2].inverse()))
         elif self[0] == ':':
             return GeomExpression(('*', self[1].inverse(), self[2].inverse()))
+        elif self[0] == '^':
+            # The complement of the complement of cell n is cell n itself. It
+            # is represented as the "complement" of cell -n; the sign is
+            # resolved when the cell complement is replaced with the
+            # definition of the cell.
+            return GeomExpression(('^', Cell(str(-int(self[1])))))
         else:
             return self[0].inverse()
 
